@@ -205,6 +205,14 @@ theorem exclusive_lock_where_records_are_exposed :
     (∀ c ∈ Generated.aggCallbackCalls, c.1 ∉ Generated.aggSharedLockUsers) ∧
     "GetRecords" ∉ Generated.aggSharedLockUsers := by decide
 
+/-- the helpers that run INSIDE an operation's critical section (every call site holds the lock) never take the
+    mutex themselves - so they cannot release it in the middle either (a helper that did `Unlock(); slow work; Lock()`
+    would split the operation's one atomic step into read / compute / write-back, with every access still made under
+    the lock: no lockset analysis and no race detector objects to that, the updates of two ingesting goroutines
+    just overwrite each other) -/
+theorem helpers_never_touch_the_mutex :
+    ∀ m ∈ Generated.aggCalledWithLock, (m, 0, false) ∈ Generated.aggLockRegions := by decide
+
 /-- one critical section per operation: no method acquires the lock more than once, so an operation
     is ONE atomic step (per record for ingestion) -/
 theorem one_critical_section_per_operation : ∀ m ∈ Generated.aggLockRegions, m.2.1 ≤ 1 := by decide
